@@ -162,6 +162,7 @@ class Unit:
 
 
 DEBUG_POOL = bool(os.environ.get("SYMX_DEBUG_POOL"))
+_DEADLINE_AT = None  # absolute time after which queued exploration tasks return at once (inherited by the forked workers)
 CHECK_DEADLINE_S = None  # wall budget of the exploration of one check (set by check_property for the quick tier)
 SLICE_S = 5  # a task that has run this long hands the unexplored rest of its subtree back to the pool
 TASK_BUDGET_S = 1500  # wall budget of one exploration task; check_property lowers it for the quick tier
@@ -177,6 +178,10 @@ def _res_to_dict(r):
 def _explore_task(task):
     ui, prefixes, export, seed_target = task
     u = _UNITS[ui]
+    if _DEADLINE_AT is not None and time.time() > _DEADLINE_AT:
+        # the check's wall budget is used up: queued work is handed back unexplored (the unit is then inconclusive)
+        return {"unit": ui, "results": [], "error": None, "paths": 0, "queries": 0, "solver_s": 0.0, "wall_s": 0.0, "hash_attempts": 0,
+                "exported": [], "left": [p for p in prefixes], "skipped": True}
     if DEBUG_POOL:
         print("start pid=%d unit=%d prefix=%r" % (os.getpid(), ui, prefixes[0][:40]), file=sys.stderr, flush=True)
     e = Explorer(max_paths=u.max_paths, max_depth=u.max_depth, seed=_SEED, query_timeout_ms=u.query_timeout_ms)
@@ -211,6 +216,9 @@ def explore_units(units, seed=0, nproc=None, budget_s=None):
     agg = [{"unit": u.name, "results": [], "errors": [], "paths": 0, "queries": 0, "solver_s": 0.0, "cpu_s": 0.0,
             "hash_attempts": 0, "exported": []} for u in units]
     round2 = []
+    pending = [0]
+    global _DEADLINE_AT
+    _DEADLINE_AT = (time.time() + CHECK_DEADLINE_S) if CHECK_DEADLINE_S is not None else None
 
     def merge(out):
         a = agg[out["unit"]]
@@ -221,8 +229,13 @@ def explore_units(units, seed=0, nproc=None, budget_s=None):
             a[k] += out[k]
         a["cpu_s"] += out["wall_s"]
         a["exported"] += out["exported"]
-        for p in out["left"]:
-            round2.append((out["unit"], [p], 1, None))
+        left = out["left"]
+        if _b.len(left) > 1 and pending[0] > 8 * nproc:
+            # plenty of work queued already: keep the rest of this subtree together instead of flooding the queue
+            round2.append((out["unit"], _b.list(left), 1, None))
+        else:
+            for p in left:
+                round2.append((out["unit"], [p], 1, None))
 
     tasks = [(ui, [[]], 3, (4 * nproc if (u.split and nproc > 1) else None)) for ui, u in enumerate(units)]
     # splittable (big) units first
@@ -238,7 +251,6 @@ def explore_units(units, seed=0, nproc=None, budget_s=None):
     # queued again (deepest = smallest last).  A unit whose tasks together exceed budget x nproc is inconclusive.
     import queue
     done = queue.Queue()
-    pending = [0]
     dead = set()
     ctx = mp.get_context("fork")
     with ctx.Pool(nproc) as pool:
@@ -404,7 +416,8 @@ def check_property(prop, units, tier, seed, *, explanation, assumptions, stubs=(
     """explore all units, replay candidates, apply known findings, write evidence, return exit code"""
     global TASK_BUDGET_S
     global CHECK_DEADLINE_S
-    CHECK_DEADLINE_S = 420 if tier == "quick" else None
+    CHECK_DEADLINE_S = (int(os.environ.get("SYMX_QUICK_DEADLINE_S", "420")) if tier == "quick" else None)
+    core.PATH_TIMEOUT_S = 90 if tier == "quick" else 180
     TASK_BUDGET_S = 150 if tier == "quick" else 1800  # x nproc CPU-seconds per unit: a quick check ends within minutes even when a change makes the path tree explode
     t0 = time.time()
     out = Outcome()
